@@ -37,9 +37,9 @@ Qed.
 Lemma cstep_new w : cstep w ONew = (w ++ [[PDefault]], None).
 Proof. reflexivity. Qed.
 
-Lemma cstep_do_own w c cfg init targets :
+Lemma cstep_do_own w c cfg init hs targets :
   nth_error w c = Some cfg ->
-  cstep w (ODo c init targets) = (w, Some (run_chain cfg init targets)).
+  cstep w (ODo c init hs targets) = (w, Some (run_chain cfg init hs targets)).
 Proof. intros H. cbn. now rewrite H. Qed.
 
 Lemma cstep_set_empty w c : cstep w (OSet c []) = (w, None).
@@ -58,7 +58,7 @@ Proof. intros H. cbn. now rewrite H. Qed.
 
 Lemma cstep_length_mono w o : length w <= length (fst (cstep w o)).
 Proof.
-  destruct o as [|c ps|c|c i t]; cbn.
+  destruct o as [|c ps|c|c i hs t]; cbn.
   - rewrite app_length. cbn. lia.
   - destruct ps; cbn; [lia|]. rewrite set_nth_length. lia.
   - destruct (nth_error w c); cbn; [rewrite app_length; cbn|]; lia.
@@ -71,7 +71,7 @@ Lemma cstep_frame w o c :
   c < length w -> (forall ps, o <> OSet c ps) ->
   nth_error (fst (cstep w o)) c = nth_error w c.
 Proof.
-  intros Hc Ho. destruct o as [|d ps|d|d i t]; cbn.
+  intros Hc Ho. destruct o as [|d ps|d|d i hs t]; cbn.
   - now rewrite nth_error_app1.
   - destruct ps as [|p ps]; [reflexivity|]. cbn [fst]. apply set_nth_other. intros ->. now apply (Ho (p :: ps)).
   - destruct (nth_error w d); cbn [fst]; [now rewrite nth_error_app1|reflexivity].
@@ -79,7 +79,7 @@ Proof.
 Qed.
 
 (* a request leaves every client's configuration alone *)
-Lemma cstep_do_world w c init targets : fst (cstep w (ODo c init targets)) = w.
+Lemma cstep_do_world w c init hs targets : fst (cstep w (ODo c init hs targets)) = w.
 Proof. cbn. destruct (nth_error w c); reflexivity. Qed.
 
 (* two worlds that agree on client c keep agreeing on c - and give the same outcomes for the
@@ -91,7 +91,7 @@ Lemma client_independence_gen c : forall ops w1 w2,
 Proof.
   induction ops as [|o r IH]; intros w1 w2 Hl Hc He; [reflexivity|].
   cbn [erase_foreign map]. fold (erase_foreign c r).
-  destruct o as [|d ps|d|d i t]; cbn [erase1].
+  destruct o as [|d ps|d|d i hs t]; cbn [erase1].
   - cbn [crun_of cstep]. apply IH.
     + rewrite !app_length. cbn [length]. lia.
     + rewrite app_length. cbn [length]. lia.
@@ -184,7 +184,7 @@ Qed.
 Lemma method_value_design_refuted :
   exists ops, crun_mv ([], []) ops <> snd (crun [] ops).
 Proof.
-  exists [ONew; OSet 0 [PNo]; OClone 0; OSet 0 [PMax 5]; ODo 1 (bs "a.test") [bs "b.test"]].
+  exists [ONew; OSet 0 [PNo]; OClone 0; OSet 0 [PMax 5]; ODo 1 (bs "a.test") [(bs "Authorization", 1)] [bs "b.test"]].
   vm_compute. intros H. discriminate H.
 Qed.
 
@@ -216,40 +216,40 @@ Proof.
 Qed.
 
 (* a chain run alone to its end is run_chain's tail *)
-Lemma hop_n_follow ps init : forall todo via strip sent n,
+Lemma hop_n_follow ps init hs : forall todo via strip sent n,
   length todo < n ->
-  chain_result (hop_n n ps {| k_init := init; k_via := via; k_strip := strip; k_todo := todo;
+  chain_result (hop_n n ps {| k_init := init; k_hdrs := hs; k_via := via; k_strip := strip; k_todo := todo;
                               k_sent := sent; k_status := Running |}) =
-  (sent ++ fst (follow ps init via strip todo), Some (snd (follow ps init via strip todo))).
+  (sent ++ fst (follow ps init hs via strip todo), Some (snd (follow ps init hs via strip todo))).
 Proof.
   induction todo as [|t rest IH]; intros via strip sent n Hn.
   - destruct n as [|n]; [cbn in Hn; lia|]. cbn [hop_n]. unfold hop at 1. cbn [k_status k_todo].
     erewrite hop_n_ended by reflexivity. cbn. now rewrite app_nil_r.
   - destruct n as [|n]; [cbn in Hn; lia|]. cbn [hop_n]. unfold hop at 1.
-    cbn [k_status k_todo k_init k_via k_strip k_sent follow].
+    cbn [k_status k_todo k_init k_hdrs k_via k_strip k_sent follow].
     destruct (all_permit ps t via) eqn:Hp.
     + rewrite IH by (cbn in Hn; lia).
-      destruct (follow ps init (via ++ [t]) (strip || negb (bytes_eqb init t) && negb (should_copy init t)) rest)
+      destruct (follow ps init hs (via ++ [t]) (strip || negb (bytes_eqb init t) && negb (should_copy init t)) rest)
         as [l e]. cbn [fst snd]. now rewrite <- app_assoc.
     + erewrite hop_n_ended by reflexivity. cbn. now rewrite app_nil_r.
 Qed.
 
-Lemma hop_n_run_chain ps init targets n :
+Lemma hop_n_run_chain ps init hs targets n :
   length targets < n ->
-  chain_result (hop_n n ps (chain_start init targets)) =
-  (fst (run_chain ps init targets), Some (snd (run_chain ps init targets))).
+  chain_result (hop_n n ps (chain_start init hs targets)) =
+  (fst (run_chain ps init hs targets), Some (snd (run_chain ps init hs targets))).
 Proof.
   intros Hn. unfold chain_start. rewrite hop_n_follow by assumption. unfold run_chain.
-  destruct (follow ps init [init] false targets) as [l e]. reflexivity.
+  destruct (follow ps init hs [init] false targets) as [l e]. reflexivity.
 Qed.
 
 (* every chain that the schedule lets run to its end ends exactly as if it had been alone *)
-Lemma interleaved_chains_independent ps sched chains i init targets :
-  nth_error chains i = Some (init, targets) ->
+Lemma interleaved_chains_independent ps sched chains i init hs targets :
+  nth_error chains i = Some (init, hs, targets) ->
   length targets < count_occ Nat.eq_dec sched i ->
   option_map chain_result
-    (nth_error (run_sched ps sched (map (fun c => chain_start (fst c) (snd c)) chains)) i) =
-  Some (fst (run_chain ps init targets), Some (snd (run_chain ps init targets))).
+    (nth_error (run_sched ps sched (map (fun c => chain_start (fst (fst c)) (snd (fst c)) (snd c)) chains)) i) =
+  Some (fst (run_chain ps init hs targets), Some (snd (run_chain ps init hs targets))).
 Proof.
   intros Hi Hn. rewrite run_sched_nth, nth_error_map, Hi. cbn [option_map fst snd].
   now rewrite hop_n_run_chain.
